@@ -147,6 +147,7 @@ static int run(const std::string& sc, const char* xsl, const char* xml, std::str
             const XalanDOMString theURI(xml, *C);
             const xercesc::LocalFileInputSource theInputSource(theURI.c_str());
             XercesParserLiaison::DOMParserType theParser;
+            theParser.setDoNamespaces(true);      // as XalanTransformer::parseSource does for its own Xerces DOM sources
             theParser.parse(theInputSource);
             XercesParserLiaison theLiaison(*B);
             XercesDOMSupport theSupport(theLiaison);
